@@ -493,19 +493,12 @@ func c07NoDrop(c *Ctx) {
 				if !isIf {
 					continue
 				}
-				var fs []fact
-				condImplies(bi.Cond, true, 0, &fs)
-				for _, f := range fs {
-					if cmp, isB := f.V.(*ssa.BinOp); isB && f.Truth && cmp.Op == token.LSS && isBuiltinCall(cmp.X, "len") != nil {
-						if k, isK := constInt(cmp.Y); isK && k <= 2 {
-							allowed[[2]int{b.Index, 0}] = true
-						}
-					}
-					if hp, isC := f.V.(*ssa.Call); isC && f.Truth {
-						if g := calleeOf(hp.Common()); g != nil && g.Pkg() != nil && g.Pkg().Path() == "bytes" && g.Name() == "HasPrefix" {
-							if s := sliceLiteralString(hp.Call.Args[1]); s == "#" {
-								allowed[[2]int{b.Index, 0}] = true
-							}
+				for k := 0; k < 2; k++ {
+					var fs []fact
+					condImplies(bi.Cond, k == 0, 0, &fs)
+					for _, f := range fs {
+						if blankOrCommentFact(f) {
+							allowed[[2]int{b.Index, k}] = true
 						}
 					}
 				}
@@ -518,6 +511,24 @@ func c07NoDrop(c *Ctx) {
 			}
 			if entry != nil {
 				scanOK = !bodyCanSkip(sliceLoop{h, body, entry}, sinks, allowed)
+				if !scanOK {
+					// per path: every way round the loop that misses the send has taken a blank-or-comment outcome
+					// (the test may sit in a flag that is branched on later)
+					if paths, ok := loopIterationPaths(h, entry, body, sinks, 64); ok {
+						scanOK = true
+						for _, fs := range paths {
+							reason := false
+							for _, f := range fs {
+								if blankOrCommentFact(f) {
+									reason = true
+								}
+							}
+							if !reason {
+								scanOK = false
+							}
+						}
+					}
+				}
 			}
 		}
 	}
@@ -1559,4 +1570,45 @@ func stableFnName(fn *ssa.Function) string {
 		role = "func"
 	}
 	return stableFnName(fn.Parent()) + "$" + role + ":" + first
+}
+
+// blankOrCommentFact: the fact says that the line is too short to be a record (fewer than 2 bytes) or starts with '#'.
+func blankOrCommentFact(f fact) bool {
+	switch x := f.V.(type) {
+	case *ssa.BinOp:
+		k, isK := constInt(x.Y)
+		if !isK {
+			return false
+		}
+		if isBuiltinCall(x.X, "len") != nil {
+			switch x.Op {
+			case token.LSS:
+				return f.Truth && k <= 2
+			case token.GEQ:
+				return !f.Truth && k <= 2
+			case token.LEQ:
+				return f.Truth && k <= 1
+			case token.GTR:
+				return !f.Truth && k <= 1
+			case token.EQL:
+				return f.Truth && k <= 1
+			case token.NEQ:
+				return !f.Truth && k <= 1
+			}
+			return false
+		}
+		// line[0] == '#'
+		if ld, ok := unwrap(x.X).(*ssa.UnOp); ok && ld.Op == token.MUL && k == '#' {
+			if ia, ok := ld.X.(*ssa.IndexAddr); ok {
+				if i, isI := constInt(ia.Index); isI && i == 0 {
+					return (x.Op == token.EQL && f.Truth) || (x.Op == token.NEQ && !f.Truth)
+				}
+			}
+		}
+	case *ssa.Call:
+		if g := calleeOf(x.Common()); g != nil && g.Pkg() != nil && g.Pkg().Path() == "bytes" && g.Name() == "HasPrefix" && f.Truth {
+			return sliceLiteralString(x.Call.Args[1]) == "#"
+		}
+	}
+	return false
 }
